@@ -35,14 +35,33 @@ import py2lean_lifecycle as L
 
 LEAN_TY = {'tsk': 'τ', 'tsklist': 'List τ', 'numtsk': '(Int × τ)', 'numtsklist': 'List (Int × τ)',
            'corolist': 'List κ', 'iwaiter': 'ω', 'circ': 'Unit', 'callsoon': 'Unit', 'str': 'String',
-           'optexc': 'Option ε', 'int': 'Int', 'bool': 'Bool', 'unit': 'Unit', 'exc': 'ε'}
+           'optexc': 'Option ε', 'int': 'Int', 'bool': 'Bool', 'unit': 'Unit', 'exc': 'ε',
+           'optsigno': 'Option Unit', 'signo': 'Unit', 'errarg': 'α', 'srcarg': 'Unit', 'notearg': 'Unit'}
 D.LEAN_TY.update({k: v for k, v in LEAN_TY.items() if k not in D.LEAN_TY})
 
 
 # ---------------------------------------------------------------------------------------- normalisation
 
 class NormE(L.Normalizer):
-    """as tools/py2lean_lifecycle.py, plus `await <name / attribute path>` -> the synthetic call `__await(<path>)`"""
+    """as tools/py2lean_lifecycle.py, plus `await <name / attribute path>` -> the synthetic call `__await(<path>)`, and
+    (when the target declares `with_cause`) `NAME.__cause__ = e` -> `NAME = __with_cause(NAME, e)`, so that the
+    exception WITH its cause is a new value of the local (joined after an `if` like any other assignment)"""
+
+    def run(self, fn):
+        fn = super().run(fn)
+        if 'with_cause' in self.t:
+            class T(ast.NodeTransformer):
+                def visit_Assign(s, n):                      # pylint: disable=no-self-argument
+                    if (len(n.targets) == 1 and isinstance(n.targets[0], ast.Attribute) and n.targets[0].attr == '__cause__'
+                            and isinstance(n.targets[0].value, ast.Name)):
+                        name = n.targets[0].value.id
+                        return ast.Assign(targets=[ast.Name(name, ast.Store())],
+                                          value=ast.Call(ast.Name('__with_cause', ast.Load()),
+                                                         [ast.Name(name, ast.Load()), n.value], []), lineno=0)
+                    return n
+            fn = T().visit(fn)
+            ast.fix_missing_locations(fn)
+        return fn
 
     def strip_await(self, node):
         awaited = set(self.t.get('awaited', ()))
@@ -102,7 +121,7 @@ def holes(node):
 
 
 class TrErr(L.TrLife):
-    OPT = ('optetype', 'opthandler', 'optexc')
+    OPT = ('optetype', 'opthandler', 'optexc', 'optsigno')
     ELEM = {'tsklist': 'tsk', 'numtsklist': 'numtsk'}
 
     def __init__(self, target):
@@ -146,6 +165,14 @@ class TrErr(L.TrLife):
                 raise self.U('interpolated into a message: `' + ast.unparse(h)[:60] + '` is neither plain nor a declared primitive')
         return out
 
+    def marker_of(self, node):
+        """the declared marker found in the constant parts of a message ('' when none is)"""
+        text = self.message(node)
+        found = [name for marker, name in self.t.get('message_markers', {}).items() if marker in text]
+        if len(found) > 1:
+            raise self.U('several markers in one message')
+        return found[0] if found else ''
+
     def hole_effect(self, h, env):
         P = self.P
         txt = ast.unparse(h)
@@ -171,6 +198,11 @@ class TrErr(L.TrLife):
                 msg = '"' + a.value.replace('\\', '\\\\').replace('"', '\\"') + '"'
             elif D.path_or_none(a) in self.t.get('msg_paths', {}):
                 msg = self.t['msg_paths'][D.path_or_none(a)].format(P=P)
+            elif is_text(a) and 'message_markers' in self.t:
+                # an f-string: what is interpolated must be plain; of the text only a declared marker is kept
+                if self.text_holes(a, env):
+                    raise self.U('a may-raise primitive inside an exception message: ' + ast.unparse(node)[:60])
+                msg = '"' + self.marker_of(a) + '"'
             else:
                 raise self.U('message of ' + ast.unparse(node)[:60])
             return (self.t['mk_cancelled'].format(P=P, m=msg), 'exc')
@@ -311,6 +343,27 @@ class TrErr(L.TrLife):
                     env2[name] = ('""', 'str')
                     return (''.join(f'{pad}M.bind ({p}) fun _ =>\n' for p in prims)
                             + self.block(rest, env2, fall, ind, live))
+            # a bare annotation `self.x: T` does nothing
+            if isinstance(s, ast.AnnAssign) and s.value is None:
+                return self.block(rest, env, fall, ind, live)
+            # NAME = <declared may-raise call> or <text>  (a display name with a fallback)
+            if (isinstance(s, ast.Assign) and len(s.targets) == 1 and isinstance(s.targets[0], ast.Name)
+                    and isinstance(s.value, ast.BoolOp) and isinstance(s.value.op, ast.Or) and len(s.value.values) == 2
+                    and is_text(s.value.values[1])):
+                prim = self.hole_effect(s.value.values[0], env)
+                if prim is not None:
+                    more = self.text_holes(s.value.values[1], env)
+                    env2 = dict(env)
+                    env2[s.targets[0].id] = ('""', 'str')
+                    return (''.join(f'{pad}M.bind ({p_}) fun _ =>\n' for p_ in [prim] + more)
+                            + self.block(rest, env2, fall, ind, live))
+            # self.<declared path> = <message>: only the declared marker of the text is kept
+            if (isinstance(s, ast.Assign) and len(s.targets) == 1 and not isinstance(s.targets[0], ast.Name)
+                    and D.path_or_none(s.targets[0]) in self.t.get('text_assign', {}) and is_text(s.value)):
+                prims = self.text_holes(s.value, env)
+                lean = self.t['text_assign'][D.path_or_none(s.targets[0])].format(P=P, m='"' + self.marker_of(s.value) + '"')
+                return (''.join(f'{pad}M.bind ({p_}) fun _ =>\n' for p_ in prims)
+                        + f'{pad}M.bind ({lean}) fun _ =>\n' + self.block(rest, env, fall, ind, live))
             # <tasklist>.extend(<declared generator of tasks>)
             if (isinstance(s, ast.Expr) and isinstance(s.value, ast.Call) and isinstance(s.value.func, ast.Attribute)
                     and s.value.func.attr == 'extend' and isinstance(s.value.func.value, ast.Name)
@@ -452,7 +505,8 @@ class TrErr(L.TrLife):
 
 HEADER = r'''/- GENERATED by tools/py2lean.py (tools/py2lean_errreg.py) from the Python source of edzed
    (simulator.Circuit._check_started, .wait_init, .shutdown, simulator.run,
-    simulator._TerminatingSignal.__enter__, .__exit__, ._handler) -- do not edit -/
+    simulator._TerminatingSignal.__init__, .__enter__, .__exit__, ._handler,
+    sblocks1.ControlBlock._event_abort, ._event_shutdown, exceptions.add_note) -- do not edit -/
 import EdzedModel.Gen.TranslatedDispatch
 
 set_option linter.unusedVariables false
@@ -530,6 +584,24 @@ structure SigPrims (σ ε : Type) where
   scheduleAbort : ε → M σ ε Bool Unit   -- `call_soon_threadsafe(get_circuit().abort, exc)`
   savedCallable : σ → Bool              -- `callable(self._saved_handler)`
   callSaved : M σ ε Bool Unit           -- `self._saved_handler(signo, frame)`
+  setSigno : Option Unit → M σ ε Bool Unit    -- `self._signo = signo` (__init__)
+  strsignal : M σ ε Bool Unit           -- `signal.strsignal(signo)` (ValueError for an invalid number)
+  setMsg : String → M σ ε Bool Unit     -- `self._msg = f"Signal {signame!r} caught"`: the declared marker of the text
+
+/-- the leaves of `ControlBlock._event_abort / _event_shutdown`; α what the `error` item of the event may be -/
+structure CtlPrims (σ ε α : Type) where
+  mkExc : String → String → ε           -- `Class(message)`: the class and the declared marker of the message
+  mkCancelled : String → ε              -- `asyncio.CancelledError(message)`: the declared marker of the message
+  isException : α → Bool                -- `isinstance(error, Exception)`
+  withCause : ε → α → M σ ε Unit ε      -- `exc.__cause__ = error` (TypeError unless `error` is a BaseException)
+  abort : ε → M σ ε Unit Unit           -- `self.circuit.abort(exc)`
+
+/-- the leaves of `exceptions.add_note` -/
+structure NotePrims (σ ε : Type) where
+  hasNotes : Bool                       -- `_HAS_EXCEPTION_NOTES` (Python ≥ 3.11)
+  nativeAddNote : ε → M σ ε Unit Unit   -- `exc.add_note(note)` (TypeError unless the note is a str)
+  firstArgIsStr : σ → Bool              -- `exc.args and isinstance(exc.args[0], str)`
+  prependNote : ε → M σ ε Unit Unit     -- `exc.args = (f"[{note}] {exc.args[0]}", *exc.args[1:])`
 
 '''
 
@@ -562,17 +634,13 @@ def resolve_checks(api, sig=True):
             raise U(f'the builtin {builtin} is shadowed in simulator.py')
     if not sig:
         return
-    # `_TerminatingSignal.__init__` is not translated: `_signo` must be its argument, assigned there first and nowhere else
+    # `_signo` / `_msg` are assigned by the (translated) `__init__` and nowhere else
     T = simulator._TerminatingSignal
-    init = api.fn_ast(vars(T)['__init__'])
-    first = [st for st in init.body if not (isinstance(st, ast.Expr) and isinstance(st.value, ast.Constant))][0]
-    if ast.unparse(first) != 'self._signo = signo' or [a.arg for a in init.args.args] != ['self', 'signo']:
-        raise U('_TerminatingSignal.__init__ does not begin with `self._signo = signo`')
     cls_src = ast.parse(__import__('textwrap').dedent(__import__('inspect').getsource(T)))
     stores = [ast.unparse(n) for n in ast.walk(cls_src)
               if isinstance(n, ast.Attribute) and isinstance(n.ctx, (ast.Store, ast.Del)) and n.attr in ('_signo', '_msg')]
     if sorted(stores) != ['self._msg', 'self._signo']:
-        raise U('_signo / _msg are assigned outside the first statements of __init__: ' + ', '.join(stores))
+        raise U('_signo / _msg are assigned outside __init__ or more than once: ' + ', '.join(stores))
 
 
 def checked(api, getter, sig=False):
@@ -684,7 +752,13 @@ def sig_targets(api):
                    ('get_circuit().abort', ('exc',), '{P}.scheduleAbort ({a[0]})')],
         catchable=(),
     )
+    init = dict(common, name='sigInit', doc='simulator._TerminatingSignal.__init__', node=checked(api, lambda: vars(T)['__init__'], sig=True),
+                signature='self, signo', args=[('signo', 'optsigno')], ret_lean='Bool', ret_type='bool', ret_none='false',
+                assign={'self._signo': ('optsigno', '{P}.setSigno {x}')},
+                hole_effects=[('signal.strsignal(signo)', '{P}.strsignal')],
+                text_assign={'self._msg': '{P}.setMsg {m}'}, message_markers={'Signal': 'Signal'})
     return [
+        init,
         dict(common, name='sigEnter', doc='simulator._TerminatingSignal.__enter__', node=checked(api, lambda: vars(T)['__enter__'], sig=True),
              signature='self', args=[], ret_lean='Bool', ret_type='bool', ret_none='false'),
         dict(common, name='sigExit', doc='simulator._TerminatingSignal.__exit__', node=checked(api, lambda: vars(T)['__exit__'], sig=True),
@@ -692,6 +766,66 @@ def sig_targets(api):
         dict(common, name='sigHandler', doc='simulator._TerminatingSignal._handler', node=checked(api, lambda: vars(T)['_handler'], sig=True),
              signature='self, signo, frame', args=[], ret_lean='Bool', ret_type='bool', ret_none='false'),
     ]
+
+
+def ctl_targets(api):
+    sblocks1 = api.sblocks1
+    CB = sblocks1.ControlBlock
+
+    def node(name):
+        def get():
+            import edzed
+            U = api.Untranslatable
+            for c in D.subclasses(CB):
+                if c.__module__.startswith('edzed') and name in vars(c):
+                    raise U(f'ControlBlock.{name} is overridden in {c.__name__}')
+            if sblocks1.EdzedCircuitError is not edzed.EdzedCircuitError or sblocks1.asyncio is not api.simulator.asyncio:
+                raise U('module globals of sblocks1.py')
+            if type(CB.__dict__.get('circuit', None)) is not type(None):
+                raise U('ControlBlock.circuit is redefined')
+            return api.fn_ast(vars(CB)[name])
+        return get
+    common = dict(
+        P='P', prims='CtlPrims σ ε α', tyvars='{σ ε α : Type}', ret_lean='Unit', ret_none='()', ret_type='unit',
+        ignore_re=(r'_logger\.\w+', r'self\.log_\w+'), awaited=(), is_async=False,
+        exceptions=('EdzedCircuitError',), mk_cancelled='({P}.mkCancelled {m})',
+        message_markers={'shutdown requested by': 'shutdown requested by', 'error reported by': 'error reported by'},
+        isinstance={('errarg', 'Exception'): '{P}.isException {x}'},
+        with_cause=True,
+        effects=[('self.circuit.abort', [('ty', 'exc')], '{P}.abort ({a[0]})', 'unit'),
+                 # assigning `__cause__` raises TypeError unless the value is None or a BaseException
+                 ('__with_cause', [('ty', 'exc'), ('ty', 'errarg')], '{P}.withCause ({a[0]}) ({a[1]})', 'exc')],
+        catchable=(),
+    )
+    return [
+        dict(common, name='ctlAbort', doc='sblocks1.ControlBlock._event_abort', node=node('_event_abort'),
+             signature="self, *, source='<no-source-data>', error='<no-error-data>', **_data",
+             args=[('source', 'srcarg'), ('error', 'errarg')]),
+        dict(common, name='ctlShutdown', doc='sblocks1.ControlBlock._event_shutdown', node=node('_event_shutdown'),
+             signature="self, *, source='<no-source-data>', **_data", args=[('source', 'srcarg')],
+             prims='CtlPrims σ ε α'),
+    ]
+
+
+def add_note_target(api):
+    def get():
+        import edzed.exceptions as X
+        U = api.Untranslatable
+        if X._HAS_EXCEPTION_NOTES is not hasattr(BaseException, 'add_note'):
+            raise U('_HAS_EXCEPTION_NOTES is not hasattr(BaseException, "add_note")')
+        if api.simulator.add_note is not X.add_note or api.block.__dict__.get('add_note', X.add_note) is not X.add_note:
+            raise U('add_note resolves elsewhere')
+        return api.fn_ast(X.add_note)
+    return dict(
+        name='addNote', doc='exceptions.add_note', node=get, signature='exc, note', is_async=False,
+        P='P', prims='NotePrims σ ε', tyvars='{σ ε : Type}', ret_lean='Unit', ret_none='()', ret_type='unit',
+        args=[('exc', 'exc'), ('note', 'notearg')], awaited=(), ignore_re=(),
+        atoms={'_HAS_EXCEPTION_NOTES': ('P.hasNotes', 'bool'),
+               'exc.args and isinstance(exc.args[0], str)': ('P.firstArgIsStr st', 'bool')},
+        effect_texts=[('exc.add_note(note)', '{P}.nativeAddNote exc', 'unit')],
+        assign_texts={('exc.args', "(f'[{note}] {exc.args[0]}', *exc.args[1:])"): '{P}.prependNote exc'},
+        catchable=(),
+    )
 
 
 def main_errreg(outfile, api):
@@ -702,7 +836,8 @@ def main_errreg(outfile, api):
     def translate(t):
         return TrErr(t).function(t['node']())
 
-    for t in [check_started_target(api), wait_init_target(api), shutdown_target(api), run_target(api)] + sig_targets(api):
+    for t in ([check_started_target(api), wait_init_target(api), shutdown_target(api), run_target(api)] + sig_targets(api)
+              + ctl_targets(api) + [add_note_target(api)]):
         api.emit(out, t, translate, ': the statements in program order (`await X` = the primitive X)')
     out.append('end Edzed.Gen.TrE')
     api.write_if_changed(outfile, '\n'.join(out) + '\n')
